@@ -760,6 +760,8 @@ def run(ctx: Ctx) -> None:
     key_rule(ctx)
     strtok_rule(ctx)
     fault_rule(ctx, "R15.rt")
+    from ..pipelinespec import step_rule
+    step_rule(ctx, "R15.step", raises_only=True)
 
     r = ctx.rule("R15.gui", "front-end error classification")
     f = m.func("gui.webgui.get_last_error")
